@@ -160,11 +160,12 @@ theorem delRightArrive_k (h : SWO lt) (P : Params K) (hp : PadOk P) (t : Nat) (k
 theorem delGo_k (h : SWO lt) (P : Params K) (hP : P.lt = lt) (hp : PadOk P) (t : Nat) (key : K) (root : Nat)
     (H : List Lk) (hroot : Lk.node root ∈ H)
     (s : St K V) (frames : List Frame) (n : Nat)
-    (hok : TreeOk none s.tree) (hord : s.tree.order = P.order) (hrootEq : root = s.tree.rootId)
+    (hok : TreeOk none s.tree) (h4 : 4 ≤ s.tree.order) (hord : s.tree.order = P.order)
+    (hrootEq : root = s.tree.rootId)
     (hfr : FramesOk s.tree root frames n) (hH : ∀ l ∈ framesHeld frames, l ∈ H)
     (hO : OrdTree lt s.tree) (hon : OnRoute lt s.tree key n) :
     GoOut lt H key s (delGo P t s key frames n root).1 (delGo P t s key frames n root).2 := by
-  have hok' : TreeOk' none s.tree := hok.prime
+  have hok' : TreeOk' none s.tree := hok.prime h4
   obtain ⟨sht, hlook, _⟩ := frames_high hok.ids frames n (by rw [← hrootEq]; exact hfr)
   obtain ⟨a, hf, hsh, _⟩ := find_some_of_look hlook
   obtain ⟨d', m⟩ := a
